@@ -295,6 +295,33 @@ def run(ctx, res):
                      "%s can copy a frame out on a path on which it has just seen the camera stopped (%s false): the frame the stop sequence "
                      "forces out of the streamer is delivered although no trigger asked for it" % (f_get.name, sorted(flags)[0]))
 
+    # ---- a successful return without a frame says so: every path to a return of Device_Ok that does not
+    # pass the copy-out stores 0 through the byte-count out-parameter (the caller commits what it is told) ----
+    nb = [p_ for p_ in f_get.params if p_.get("pd") and not p_.get("r") and ("long" in p_.get("t", "") or "size_t" in p_.get("t", ""))]
+    ok_v = dict(prog.enum_values("DeviceStatusCode") or []).get("Device_Ok", 0)
+    ok_rets = [(b.id, i) for b, i, s_ in f_get.all_stmts() if s_.get("k") == "ret" and isinstance(ir.strip(s_.get("e")), dict)
+               and ir.strip(s_["e"]).get("k") == "int" and ir.strip(s_["e"]).get("v") == ok_v]
+    if nb and ok_rets:
+        nbp = nb[0]
+
+        def copy_or_zero(ss):
+            if any(c.get("fn") == "memcpy" for c in ir.calls_in(ss)):
+                return True
+            for lv, op, rhs, w in ir.writes_of(ss):
+                l0 = ir.strip(lv)
+                if isinstance(l0, dict) and l0.get("k") == "deref" and ir.strip(l0["e"]).get("k") == "var" and ir.strip(l0["e"]).get("id") == nbp["id"] \
+                        and op == "=" and ir.is_const(rhs, 0):
+                    return True
+            return False
+        okp, wit = paths.all_paths_pass(f_get, "entry", set(ok_rets), copy_or_zero)
+        inst = "%s: Device_Ok without a frame reports zero bytes" % f_get.name
+        if okp:
+            res.oblige("R-FRESH", inst, True, "every path to a successful return copies a frame out or stores *%s = 0" % nbp["n"], f_get.loc())
+        else:
+            res.fail("R-FRESH", inst, "R-FRESH|%s|no-frame" % f_get.name, f_get.loc(),
+                     "%s can return Device_Ok without copying a frame out and without setting *%s to 0 (stopped while waiting): the caller believes it received a frame - "
+                     "the source commits a frame the camera never delivered, with the previous frame's id" % (f_get.name, nbp["n"]), {"path_blocks": wit})
+
     # ---- after mutation analysis: the id advances with every generated frame,
     # a publish wakes the waiting frame call, the frame call reports the id -----
     for g, a, held in mine:
@@ -385,4 +412,4 @@ def run(ctx, res):
     res.require_min("R-STOP-WAKES", 3)
     res.require_min("R-TRIGGER-GATE", 2)
     res.require_min("R-RESTART", 3)
-    res.require_min("R-FRESH", 6)
+    res.require_min("R-FRESH", 7)
